@@ -30,6 +30,9 @@ type c03Scen struct {
 	MI  int     `json:"max_inflight"`
 	SQ  byte    `json:"sub_qos"`
 	Ops []c03Op `json:"ops"`
+	// Warm promptly acknowledged QoS1 messages are delivered before the script starts: with max_inflight 1 the
+	// broker consumes exactly one packet id per message, so 65534 of them put the id counter at the 65535 boundary.
+	Warm int `json:"warm,omitempty"`
 }
 
 func genC03(t *rapid.T) c03Scen {
@@ -252,6 +255,62 @@ func runC03(s c03Scen, c *ev.Case) *ev.Violation {
 	}
 	if code, err := subscribeOne(r.cl, 2, subSpec{Filter: "t", QoS: s.SQ}); err != nil || code != s.SQ {
 		return harnessErr("subscribe: %v %v", code, err)
+	}
+	if s.Warm > 0 {
+		r.mu.Lock()
+		r.auto = true
+		r.mu.Unlock()
+		// no sentinels here: a QoS0 message burns a packet id too (the poller asks for an id before it knows the QoS)
+		waitUID := func(u string) error {
+			deadline := time.Now().Add(120 * time.Second)
+			for time.Now().Before(deadline) {
+				r.mu.Lock()
+				n := len(r.events)
+				seen := false
+				for i := n - 1; i >= 0 && i >= n-8; i-- {
+					if r.events[i].UID == u {
+						seen = true
+					}
+				}
+				r.mu.Unlock()
+				if seen {
+					return nil
+				}
+				time.Sleep(200 * time.Microsecond)
+			}
+			return fmt.Errorf("warm-up message %s not delivered within 120 s", u)
+		}
+		for k := 0; k < s.Warm; k++ {
+			u := fmt.Sprintf("a%05d", k)
+			b.Srv.Publisher().Publish(&gmqtt.Message{Topic: "t", QoS: 1, Payload: []byte(u)})
+			if k%200 == 199 || k == s.Warm-1 {
+				if err := waitUID(u); err != nil {
+					return harnessErr("%v", err)
+				}
+			}
+		}
+		for k := 0; k < 3; k++ {
+			if err := r.cl.Ping(fixture.DefaultWait); err != nil {
+				return harnessErr("warm-up ping: %v", err)
+			}
+		}
+		r.mu.Lock()
+		r.auto = false
+		maxID := uint16(0)
+		for _, e := range r.events {
+			if e.Kind == "rpub" && e.ID > maxID {
+				maxID = e.ID
+			}
+		}
+		r.log(c03Event{Kind: "barrier"})
+		r.mu.Unlock()
+		c.Count("warm_max_packet_id", int(maxID))
+		if maxID >= 65000 {
+			c.Label("packet_id_near_wrap")
+		}
+		if int(maxID) != s.Warm {
+			c.Label("warm_ids_not_consecutive")
+		}
 	}
 	var emitted []string // uids with effective QoS > 0, in emission order
 	emitEpoch := map[string]int{}
@@ -541,6 +600,24 @@ func runC03(s c03Scen, c *ev.Case) *ev.Violation {
 		c.NonTrivial()
 	}
 	return nil
+}
+
+// TestC03IdWrap aims at the 65535 -> 1 wrap of the packet identifier space: a warm-up drives the id
+// counter to the boundary, then messages are left unacknowledged across a cut and new ones follow.
+func TestC03IdWrap(t *testing.T) {
+	if i, _ := ev.Shard(); ev.Tier() == "quick" || i >= 4 {
+		t.Skip("65534 round trips per case: thorough tier only, on four shards")
+	}
+	ev.RunN(t, "C03", 0.02, func(t *rapid.T) c03Scen {
+		// max_inflight 1: exactly one packet id per message, so after Warm messages the id counter stands at Warm
+		s := c03Scen{V: rapid.SampledFrom([]int{4, 5}).Draw(t, "v"), MI: 1, SQ: 1, Warm: 65534 + rapid.IntRange(-2, 0).Draw(t, "warm")}
+		s.Ops = append(s.Ops, c03Op{Op: "pub", QoS: 1}, c03Op{Op: "cut"})
+		k := rapid.IntRange(2, 4).Draw(t, "after")
+		for i := 0; i < k; i++ {
+			s.Ops = append(s.Ops, c03Op{Op: "ack", K: 0}, c03Op{Op: "pub", QoS: 1})
+		}
+		return s
+	}, runC03)
 }
 
 func TestC03Outbound(t *testing.T) {
